@@ -13,6 +13,8 @@ use tokio::sync::watch;
 use vbase::Rng;
 
 pub static PAUSES: AtomicU64 = AtomicU64::new(0);
+pub static TASK_PANICS: AtomicU64 = AtomicU64::new(0);
+pub static LAST_TASK_PANIC: std::sync::Mutex<String> = std::sync::Mutex::new(String::new());
 static HOOK_DELAY_SEED: AtomicU64 = AtomicU64::new(0x9E3779B97F4A7C15);
 
 pub fn install_hook() -> bool {
@@ -171,16 +173,20 @@ pub fn run_signal(
             spin(Duration::from_micros(150));
         }
     });
-    let res = rt.block_on(async {
-        tokio::time::timeout(watchdog, v.resumable_verify_with_signal(max_cycles, &mut rx)).await
+    let res = crate::drive::guarded(|| {
+        rt.block_on(async {
+            tokio::time::timeout(watchdog, v.resumable_verify_with_signal(max_cycles, &mut rx))
+                .await
+        })
     });
     done.store(true, Ordering::SeqCst);
     let out = match res {
-        Ok(r) => SigEnd::Done(Verdict::from(r)),
-        Err(_) => {
+        Ok(Ok(r)) => SigEnd::Done(Verdict::from(r)),
+        Ok(Err(_)) => {
             let _ = tx.send(ChunkCommand::Stop);
             SigEnd::Watchdog
         }
+        Err(p) => SigEnd::Done(Verdict::Panic(p)),
     };
     let _ = controller.join();
     out
@@ -257,6 +263,24 @@ pub fn signal_phase(
                         "reference": {"kind": format!("{:?}", r.kind), "verdict": r.verdict.to_json(), "c": r.c},
                         "observed": obs})
                 };
+                if let Verdict::Panic(msg) = &got {
+                    // resumable_verify_with_signal itself panicked (the caller's thread)
+                    let tag: String = msg
+                        .chars()
+                        .map(|c| if c.is_ascii_alphanumeric() { c } else { '_' })
+                        .take(40)
+                        .collect();
+                    l.violation(
+                        &format!("signal.panic@{tag}"),
+                        format!(
+                            "{}: {desc}: resumable_verify_with_signal panicked: {msg}; last panic of the spawned VM task: {}",
+                            cx.case.name,
+                            LAST_TASK_PANIC.lock().map(|g| g.clone()).unwrap_or_default()
+                        ),
+                        w(),
+                    );
+                    continue;
+                }
                 if got.is_interrupts() {
                     if plan.ends_with_stop {
                         st.interrupted += 1;
@@ -284,7 +308,7 @@ pub fn signal_phase(
                     } else if short && got.class() != "deadlock" {
                         format!("signal.short_budget_not_reported@{}", got.class())
                     } else {
-                        crate::drive::mismatch_sig("signal", r, &got)
+                        crate::drive::mismatch_sig("signal", cx, &got, false)
                     };
                     l.violation(
                         &sig,
